@@ -132,7 +132,11 @@ def canon(x, depth=0, fs=None):
     if isinstance(x, lena.structures.histogram):
         return ("histogram", canon(x.edges, depth + 1), canon(x.bins, depth + 1))
     if isinstance(x, lena.structures.graph):
-        return ("graph", canon(x.coords, depth + 1), canon(x.field_names, depth + 1), canon(x._scale))
+        try:
+            sc_ = x.scale()
+        except Exception:  # noqa: BLE001
+            sc_ = None
+        return ("graph", canon(x.coords, depth + 1), canon(x.field_names, depth + 1), canon(sc_))
     if isinstance(x, tuple):
         return ("t",) + tuple(canon(y, depth + 1) for y in x)
     if isinstance(x, list):
